@@ -70,6 +70,10 @@ def run_program(prog, seed, policy, base, family="corpus", replay=None):
     impl = open(trace).read().splitlines()
     m = subprocess.run([MODEL, prog, sched], stdout=subprocess.PIPE, stderr=subprocess.PIPE, timeout=120)
     model = m.stdout.decode().splitlines()
+    # the model driver evaluates the accounting equation of coq/ASModel/AccDefs.v on every state
+    # (MODEL_ACC_CHECK=1); a violated equation on a trace the code agrees with is a C02 finding
+    acc_lines = [l for l in model if l.startswith(". ACC-VIOLATION")]
+    model = [l for l in model if not l.startswith(". ACC-VIOLATION")]
     open(base + ".model", "w").write(m.stdout.decode())
     if m.returncode != 0:
         res["status"] = "model-failed"
@@ -96,6 +100,8 @@ def run_program(prog, seed, policy, base, family="corpus", replay=None):
         findings, metrics = tracemod.analyse(tracemod.parse_program(open(prog).read()), impl)
     except Exception as ex:  # an oracle crash must not pass silently
         findings, metrics = [("HARNESS", "oracle crashed: %r" % (ex,))], {}
+    for l in acc_lines:
+        findings = list(findings) + [("C02", "accounting equation count+slots+owed = containers+envelopes+handles+frames violated: " + l[2:], None)]
     res["findings"] = findings
     res["metrics"] = metrics
     if d is None:
